@@ -33,6 +33,7 @@ import (
 	"strings"
 
 	"github.com/aergoio/aergo-lib/db"
+	"github.com/aergoio/aergo/v2/account/key"
 	"github.com/aergoio/aergo/v2/chain"
 	"github.com/aergoio/aergo/v2/config"
 	"github.com/aergoio/aergo/v2/consensus"
@@ -47,6 +48,7 @@ import (
 	"github.com/aergoio/aergo/v2/types"
 	"github.com/aergoio/aergo/v2/types/dbkey"
 	"github.com/aergoio/aergo/v2/zz_verif/vh"
+	"github.com/btcsuite/btcd/btcec/v2"
 	"github.com/rs/zerolog"
 )
 
@@ -71,18 +73,20 @@ type table struct {
 	addr map[int][]byte
 	idx  map[string]int
 	next int
+	keys map[int]*btcec.PrivateKey // users, ghosts, coinbase: real secp256k1 keys (addresses = public keys)
 }
 
 func newTable() *table {
-	t := &table{addr: map[int][]byte{}, idx: map[string]int{}, next: iContract0}
+	t := &table{addr: map[int][]byte{}, idx: map[string]int{}, next: iContract0, keys: map[int]*btcec.PrivateKey{}}
 	t.set(iSystem, []byte(types.AergoSystem))
 	t.set(iName, []byte(types.AergoName))
 	t.set(iVault, []byte(types.AergoVault))
 	t.set(iEnterprise, []byte(types.AergoEnterprise))
 	r := vh.NewRng(20260922) // fixed addresses: replays name accounts by index
 	mk := func(i int) {
-		b := append([]byte{0x02 + byte(i&1)}, r.Bytes(32)...)
-		t.set(i, b)
+		k, _ := btcec.PrivKeyFromBytes(r.Bytes(32))
+		t.keys[i] = k
+		t.set(i, k.PubKey().SerializeCompressed())
 	}
 	mk(iCoinbase)
 	for i := 0; i < nUsers; i++ {
@@ -262,6 +266,8 @@ type session struct {
 	knownInBlock string
 	seenContracts []int
 	ts      int64
+	node    *chain.ChainService // what the real newBlockExecutor needs (shim VerifC01Node)
+	vnode   *chain.ChainService // the same with BlockValidator.verbose (verify mode)
 }
 
 var knownSeen = map[string]int{}
@@ -271,6 +277,24 @@ type stubCcc struct{}
 func (stubCcc) MakeConfChangeProposal(req *types.MembershipChange) (*consensus.ConfChangePropose, error) {
 	return nil, consensus.ErrorMembershipChangeSkip
 }
+
+// stubCons satisfies consensus.ChainConsensus for the ChainService literal the real newBlockExecutor reads
+// (it only hands it to NewTxExecutor as the ChainConsensusCluster).
+type stubCons struct{ stubCcc }
+
+func (stubCons) GetType() consensus.ConsensusType                      { return consensus.ConsensusDPOS }
+func (stubCons) IsTransactionValid(tx *types.Tx) bool                  { return true }
+func (stubCons) VerifyTimestamp(block *types.Block) bool               { return true }
+func (stubCons) VerifySign(block *types.Block) error                   { return nil }
+func (stubCons) IsBlockValid(block *types.Block, best *types.Block) error { return nil }
+func (stubCons) Update(block *types.Block)                             {}
+func (stubCons) Save(tx consensus.TxWriter) error                      { return nil }
+func (stubCons) NeedReorganization(rootNo types.BlockNo) bool          { return true }
+func (stubCons) NeedNotify() bool                                      { return false }
+func (stubCons) HasWAL() bool                                          { return false }
+func (stubCons) IsConnectedBlock(block *types.Block) bool              { return false }
+func (stubCons) IsForkEnable() bool                                    { return true }
+func (stubCons) Info() string                                          { return "stub" }
 
 func b2i(b bool) int {
 	if b {
@@ -348,6 +372,8 @@ func newSession(run *vh.Run, prop string, rng *vh.Rng, c cfg, n int) *session {
 	if err := s.sdb.Apply(bs); err != nil {
 		panic(err)
 	}
+	s.node = chain.VerifC01Node(s.sdb, stubCons{}, s.hf(), false)
+	s.vnode = chain.VerifC01Node(s.sdb, stubCons{}, s.hf(), true)
 	s.reloadGlobals()
 	if system.GetGasPrice().Cmp(c.gasPrice) != 0 || system.GetNamePrice().Cmp(c.namePrice) != 0 || system.GetStakingMinimum().Cmp(c.stakingMin) != 0 {
 		panic("system parameters not loaded")
@@ -499,11 +525,15 @@ type txSpec struct {
 	newAddr  int
 	payload  []byte
 	beyondVM bool // the scripted VM fee exceeds what the real VM could charge (gas limit): oracles do not apply
-	// the sender is not a key account in a shape the theorems exclude (SenderOK: a contract calling itself,
-	// aergo.name sending to aergo.name) - signature verification (C04) keeps such a tx out of a block; the
-	// oracles do not apply, the model correspondence does
-	outsideSig bool
-	label      string
+	label    string
+	// the account / recipient is given by NAME (12 characters, resolved by executeTx through the name
+	// contract's committed table); sender / rcpt hold the resolved indices, which is what the model sees
+	asName   int
+	rcptName int
+	signer   int // whose key signs (no key for that index: unsigned); default: the sender
+	signerSet bool
+	// the block verifier's signature check accepts the tx on the committed state (SignVerifier.verifyTx)
+	admissible bool
 }
 
 var typeName = map[types.TxType]string{
@@ -550,8 +580,31 @@ func (s *session) scriptJSON(sc *script) []byte {
 	return b
 }
 
-// outside: the transaction is outside the domain on which the oracles speak (see beyondVM, outsideSig).
-func (x *txSpec) outside() bool { return x.beyondVM || x.outsideSig }
+// outside: the transaction is outside the domain on which the oracles speak: a scripted VM behaviour the
+// real VM cannot show (beyondVM), or a transaction the real signature verifier refuses - no valid block can
+// carry it, only the model correspondence is checked (it runs in a probe block that is never committed).
+func (x *txSpec) outside() bool { return x.beyondVM || !x.admissible }
+
+// accountBytes / recipientBytes: what goes into the tx body (a name, or the address).
+func (s *session) accountBytes(x *txSpec) []byte {
+	if x.asName > 0 {
+		return []byte(nameStr(x.asName))
+	}
+	if x.asName < 0 {
+		return []byte(types.AergoName)
+	}
+	return s.t.addr[x.sender]
+}
+
+func (s *session) recipientBytes(x *txSpec) []byte {
+	if x.rcpt < 0 {
+		return nil
+	}
+	if x.rcptName > 0 {
+		return []byte(nameStr(x.rcptName))
+	}
+	return s.t.addr[x.rcpt]
+}
 
 func (s *session) finish(x *txSpec) {
 	if x.typ == types.TxType_GOVERNANCE {
@@ -561,19 +614,24 @@ func (s *session) finish(x *txSpec) {
 	}
 	x.newAddr = 0
 	if x.rcpt < 0 {
-		x.newAddr = s.t.of(contract.CreateContractID(s.t.addr[x.sender], x.nonce))
+		// executeTx derives the address from the account bytes of the tx body (a name stays a name)
+		x.newAddr = s.t.of(contract.CreateContractID(s.accountBytes(x), x.nonce))
+	}
+	if !x.signerSet {
+		x.signer = x.sender
 	}
 }
 
 func (s *session) build(x *txSpec, bi *types.BlockHeaderInfo) *types.Tx {
-	var rc []byte
-	if x.rcpt >= 0 {
-		rc = s.t.addr[x.rcpt]
-	}
 	tx := &types.Tx{Body: &types.TxBody{
-		Nonce: x.nonce, Account: s.t.addr[x.sender], Recipient: rc, Amount: x.amount.Bytes(),
+		Nonce: x.nonce, Account: s.accountBytes(x), Recipient: s.recipientBytes(x), Amount: x.amount.Bytes(),
 		Payload: x.payload, GasLimit: x.gasLimit, Type: x.typ, ChainIdHash: common.Hasher(bi.ChainId),
 	}}
+	if k := s.t.keys[x.signer]; k != nil {
+		if err := key.SignTx(tx, k); err != nil {
+			panic(err)
+		}
+	}
 	tx.Hash = tx.CalculateTxHash()
 	return tx
 }
@@ -642,7 +700,7 @@ func rejClass(err error) string {
 		return "system"
 	}
 	switch e := err.(type) {
-	case *contract.VmSystemError, *contract.DbSystemError:
+	case *contract.VmSystemError, *contract.DbSystemError, *contract.VmTimeoutError:
 		return "system"
 	case *types.InternalError:
 		if e.Reason == "fee is greater than balance" {
@@ -863,6 +921,9 @@ func (s *session) newBS(bi *types.BlockHeaderInfo) *state.BlockState {
 // runTx executes one tx through the real executor and evaluates the per-tx oracles.
 func (s *session) runTx(bs *state.BlockState, exec chain.TxExecFn, bi *types.BlockHeaderInfo, x *txSpec, pre *snap) (post *snap, kept bool) {
 	tx := s.build(x, bi)
+	// would the block verifier's signature check let a block carry this transaction? (committed state)
+	x.admissible = chain.VerifC01VerifyTx(s.node, tx) == nil
+	s.run.Count(map[bool]string{true: "sig-admissible", false: "sig-refused"}[x.admissible])
 	line := "tx " + x.words()
 	s.run.Pending(line)
 	var err error
@@ -935,7 +996,7 @@ func (s *session) runTx(bs *state.BlockState, exec chain.TxExecFn, bi *types.Blo
 			s.run.Count("out-" + rc.Status)
 			exp := s.expectSuccess(pre, x, feeUsed, bi.No)
 			if !post.equalState(exp) && x.outside() {
-				s.run.Count(map[bool]string{true: "sig-domain-effects", false: "stub-domain-effects"}[x.outsideSig])
+				s.run.Count(map[bool]string{true: "sig-domain-effects", false: "stub-domain-effects"}[!x.admissible])
 			} else if !post.equalState(exp) {
 				known = s.classify(x, pre)
 				s.fail("C03", "a successful transaction did not apply exactly its effects", known, line, "pre    "+pre.dump(z), "post   "+post.dump(z), "expect "+exp.dump(z))
@@ -958,7 +1019,7 @@ func (s *session) runTx(bs *state.BlockState, exec chain.TxExecFn, bi *types.Blo
 			}
 		}
 	} else if sumPre.Cmp(sumPost) != 0 {
-		s.run.Count(map[bool]string{true: "sig-domain-sum-change", false: "stub-domain-sum-change"}[x.outsideSig])
+		s.run.Count(map[bool]string{true: "sig-domain-sum-change", false: "stub-domain-sum-change"}[!x.admissible])
 		if s.knownInBlock == "" {
 			s.knownInBlock = "stub"
 		}
@@ -975,6 +1036,13 @@ func (s *session) runTx(bs *state.BlockState, exec chain.TxExecFn, bi *types.Blo
 // The two name-contract shapes this check found (v1setOwner to the sender; a paid name tx while
 // aergo.name owns itself) are repaired in /repo: they are ordinary violations now.
 func (s *session) classify(x *txSpec, pre *snap) string {
+	// A transaction sent under a NAME whose destination is a contract is signed by the name's owner (the
+	// contract's creator) and executed with the contract account as the sender. If its recipient is that
+	// same contract, executeTx holds two AccountState records of one account, the VM debits the receiver's
+	// record and the success branch writes the sender's only.
+	if x.admissible && x.asName > 0 && x.rcpt == x.sender && pre.acct(x.sender).code {
+		return "name-owner-sends-as-contract-to-itself"
+	}
 	return ""
 }
 
@@ -1019,7 +1087,7 @@ func (s *session) block(gen func(b *blockGen), coinbase int, trials bool) {
 	}
 	s.op(fmt.Sprintf("begin %d %d %s", bi.No, s.cfg.fv, cbw), "ok", false)
 
-	bg := &blockGen{s: s, bs: bs, bi: bi, exec: exec, cur: preBlock}
+	bg := &blockGen{s: s, bs: bs, bi: bi, exec: exec, cur: preBlock, pre: preBlock}
 	gen(bg)
 	if s.aborted {
 		return
@@ -1064,12 +1132,15 @@ func (s *session) block(gen func(b *blockGen), coinbase int, trials bool) {
 		// C03, block level: broken variants of the block through the real blockExecutor; nothing may change
 		for _, v := range s.variants(bg, block, bi, preBlock) {
 			s.reloadGlobals()
-			_, err := chain.VerifC01RunBlock(s.sdb, stubCcc{}, v.block, func(b *state.BlockState) { b.SetGasPrice(system.GetGasPrice()) }, s.hf(), false, false)
+			_, err := chain.VerifC01ExecBlock(s.node, v.block, false)
 			after := s.committedSnap()
 			sumAfter, _ := s.fullSum()
 			impl := "refused-tx"
 			if err == chain.ErrorBlockVerifyStateRoot || err == chain.ErrorBlockVerifyReceiptRoot {
 				impl = "refused-root"
+			}
+			if err == chain.ErrorBlockVerifySign {
+				impl = "refused-sig"
 			}
 			if err == nil {
 				impl = "accepted"
@@ -1092,7 +1163,7 @@ func (s *session) block(gen func(b *blockGen), coinbase int, trials bool) {
 			s.reloadGlobals()
 			b := cloneBlock(block, block.Body.Txs)
 			b.Header.ReceiptsRootHash = common.Hasher(append([]byte("y"), block.Header.ReceiptsRootHash...))
-			_, err := chain.VerifC01RunBlock(s.sdb, stubCcc{}, b, func(b *state.BlockState) { b.SetGasPrice(system.GetGasPrice()) }, s.hf(), true, true)
+			_, err := chain.VerifC01ExecBlock(s.vnode, b, true)
 			after := s.committedSnap()
 			if err == nil {
 				s.run.Count("lead8-verify-mode-reports-only")
@@ -1109,7 +1180,7 @@ func (s *session) block(gen func(b *blockGen), coinbase int, trials bool) {
 	var final *snap
 	if validatorCommit {
 		s.reloadGlobals()
-		vbs, err := chain.VerifC01RunBlock(s.sdb, stubCcc{}, block, func(b *state.BlockState) { b.SetGasPrice(system.GetGasPrice()) }, s.hf(), false, false)
+		vbs, err := chain.VerifC01ExecBlock(s.node, block, false)
 		final = s.committedSnap()
 		if err != nil {
 			s.fail("C03", "the validator refused the block the producer built from the same state: "+err.Error(), "", "block "+strconv.FormatUint(bi.No, 10))
@@ -1162,6 +1233,37 @@ func (s *session) block(gen func(b *blockGen), coinbase int, trials bool) {
 	s.blockNo++
 }
 
+// probeBlock: a block state that is never committed. It may carry transactions the signature verifier
+// refuses (sent "by" a contract address, by aergo.name without an owner, unsigned ...): the real executeTx
+// never looks at signatures, so the model correspondence is checked on them, the oracles only on the
+// admissible ones. Afterwards the state DB must be what it was (op "abort").
+func (s *session) probeBlock(gen func(b *blockGen)) {
+	if s.aborted {
+		return
+	}
+	s.reloadGlobals()
+	s.knownInBlock = ""
+	s.ts += 1000000000
+	bi := &types.BlockHeaderInfo{No: s.blockNo, Ts: s.ts, PrevBlockHash: s.prev, ChainId: types.MakeChainId(s.chainID, s.cfg.fv), ForkVersion: s.cfg.fv}
+	bs := s.newBS(bi)
+	exec := chain.NewTxExecutor(context.Background(), stubCcc{}, nil, bi, contract.BlockFactory)
+	preBlock := s.read(bs)
+	rootBefore := append([]byte{}, s.sdb.GetRoot()...)
+	s.op(fmt.Sprintf("begin %d %d -", bi.No, s.cfg.fv), "ok", false)
+	bg := &blockGen{s: s, bs: bs, bi: bi, exec: exec, cur: preBlock, pre: preBlock, probe: true}
+	gen(bg)
+	if s.aborted {
+		return
+	}
+	z := new(big.Int)
+	after := s.committedSnap()
+	if !bytes.Equal(rootBefore, s.sdb.GetRoot()) || !after.equalState(preBlock) {
+		s.fail("C03", "a block state that was never committed changed the state DB", "", "before "+preBlock.dump(z), "after  "+after.dump(z))
+	}
+	s.run.Count("probe-block")
+	s.op("abort", "ok | "+after.dump(z), true)
+}
+
 type variant struct {
 	kind  string
 	line  string
@@ -1187,6 +1289,24 @@ func (s *session) variants(bg *blockGen, block *types.Block, bi *types.BlockHead
 		b := cloneBlock(block, block.Body.Txs)
 		b.Header.ReceiptsRootHash = common.Hasher(append([]byte("x"), block.Header.ReceiptsRootHash...))
 		vs = append(vs, variant{"badreceipts", "vblock badreceipts", b})
+	}
+	// one transaction's signature made wrong: every transaction still executes (executeTx does not look at
+	// signatures), the block must be refused by the verifier's verdict and nothing may be committed
+	if len(block.Body.Txs) > 0 && s.rng.Chance(1, 2) {
+		k := s.rng.Intn(len(block.Body.Txs))
+		txs := append([]*types.Tx{}, block.Body.Txs...)
+		body := *txs[k].Body
+		sig := append([]byte{}, body.Sign...)
+		if len(sig) > 8 {
+			sig[len(sig)-3] ^= 0x5a
+		} else {
+			sig = []byte{1, 2, 3}
+		}
+		body.Sign = sig
+		bad := &types.Tx{Body: &body}
+		bad.Hash = bad.CalculateTxHash()
+		txs[k] = bad
+		vs = append(vs, variant{"badsig", "vblock badsig", cloneBlock(block, txs)})
 	}
 	// a transaction the executor rejects, at a random position (first, middle, last)
 	n := len(block.Body.Txs)
@@ -1229,8 +1349,9 @@ func (s *session) badTx(pre *snap, nonceAt func(u int) uint64) *txSpec {
 			if pre.accts[c].code && c >= iContract0 {
 				// a valid nonce: the tx reaches the VM, which writes storage and pays a third account, then
 				// reports a system error: the executor must roll all of it back and the block must be refused
-				return &txSpec{typ: types.TxType_CALL, sender: u, rcpt: c, amount: big.NewInt(1), nonce: nonceAt(u), label: "vm-system-error",
-					sc: &script{fee: new(big.Int), err: "system", xfers: []xfer{{iGhost0, big.NewInt(1)}}, sets: [][2]int{{0, 9}}}}
+				e := []string{"system", "timeout"}[s.rng.Intn(2)]
+				return &txSpec{typ: types.TxType_CALL, sender: u, rcpt: c, amount: big.NewInt(1), nonce: nonceAt(u), label: "vm-" + e + "-after-writes",
+					sc: &script{fee: new(big.Int), err: e, xfers: []xfer{{iGhost0, big.NewInt(1)}}, sets: [][2]int{{0, 9}}}}
 			}
 		}
 		fallthrough
@@ -1247,7 +1368,9 @@ type blockGen struct {
 	bi   *types.BlockHeaderInfo
 	exec chain.TxExecFn
 	cur  *snap
+	pre  *snap // the committed view at block start: what name resolution and signature verification read
 	p    produced
+	probe bool // a block that is never committed: it may carry transactions the verifier refuses
 }
 
 func (b *blockGen) submit(x *txSpec) bool {
@@ -1255,6 +1378,13 @@ func (b *blockGen) submit(x *txSpec) bool {
 		return false
 	}
 	b.s.finish(x)
+	if !b.probe {
+		// a block that is going to be committed carries only what the signature verifier admits
+		if chain.VerifC01VerifyTx(b.s.node, b.s.build(x, b.bi)) != nil {
+			b.s.run.Count("not-admitted-to-a-committed-block")
+			return false
+		}
+	}
 	post, kept := b.s.runTx(b.bs, b.exec, b.bi, x, b.cur)
 	b.cur = post
 	if kept {
@@ -1381,14 +1511,18 @@ func (b *blockGen) randNonce(u int) (uint64, string) {
 func (b *blockGen) genScript(x *txSpec, isFD bool, contractBal *big.Int) *script {
 	r := b.s.rng
 	sc := &script{fee: new(big.Int), err: "ok"}
-	switch r.Intn(12) {
+	switch r.Intn(13) {
 	case 0:
 		sc.err = "vm"
 	case 1:
 		sc.err = "system"
 	case 2:
 		sc.err = "negfee"
+	case 3:
+		sc.err = "timeout"
 	}
+	// "system" and "timeout" strike after the script's transfers and storage writes have been made
+	writes := sc.err == "ok" || sc.err == "system" || sc.err == "timeout"
 	if isFD && r.Chance(1, 12) {
 		sc.nofd = true
 	}
@@ -1396,7 +1530,7 @@ func (b *blockGen) genScript(x *txSpec, isFD bool, contractBal *big.Int) *script
 	avail := new(big.Int).Set(contractBal)
 	rc := x.rcpt
 	nx := r.Intn(4)
-	for i := 0; i < nx && sc.err == "ok"; i++ {
+	for i := 0; i < nx && writes; i++ {
 		to := b.anyTarget()
 		if r.Chance(1, 4) {
 			to = x.sender
@@ -1681,59 +1815,137 @@ func (b *blockGen) genFeeDelegation() *txSpec {
 	return x
 }
 
-// genOtherSender: transactions whose sender is NOT a key account - the other side of the `SenderOK`
-// hypothesis of the conservation theorems. executeTx itself never looks at the signature (the block
-// verifier and the mempool do, C04), so the real code runs them:
-//   - a contract as the sender of a plain transfer / call to ANOTHER account: inside SenderOK (the hypothesis
-//     was sharpened to "recipient = sender => no code"): the oracles apply;
-//   - a contract calling itself, aergo.name sending a name transaction to aergo.name: outside SenderOK, the
-//     model mints / loses coin there (necessity witnesses in Props/C01.lean) and the real code must do exactly
-//     the same: correspondence only (outsideSig).
+// namesTo: committed names whose destination is account i and whose owner holds a key the harness can sign
+// with (executeTx resolves a name through the committed table; the signature verifier checks the signature
+// of a tx sent under a name against the name's OWNER).
+func (b *blockGen) namesTo(i int) []int {
+	var ns []int
+	for n := 1; n <= nNames; n++ {
+		if nm, ok := b.pre.names[n]; ok && nm[1] == i && b.s.t.keys[nm[0]] != nil {
+			ns = append(ns, n)
+		}
+	}
+	return ns
+}
+
+// genOtherSender: transactions whose sender is NOT a key account - both sides of the `SenderOK` hypothesis of
+// the conservation theorems, and of what the real signature verifier admits:
+//   - under a NAME whose destination is a contract: signed by the name's owner (the contract's creator),
+//     admitted by the verifier, executed with the contract account as the sender - to another account (inside
+//     SenderOK), or to the contract itself (outside it);
+//   - under the account "aergo.name": admitted iff the name contract has an owner with a key (v1setOwner);
+//   - with a contract address as the account (no key can sign for it): refused by the verifier; executeTx
+//     itself never looks at signatures, so these run in probe blocks for the model correspondence.
 func (b *blockGen) genOtherSender() *txSpec {
 	r := b.s.rng
 	cs := b.contracts()
-	k := r.Intn(4)
-	if len(cs) == 0 {
-		k = 3
+	// contracts reachable under a name
+	type named struct{ c, n int }
+	var nc []named
+	for _, c := range cs {
+		for _, n := range b.namesTo(c) {
+			nc = append(nc, named{c, n})
+		}
 	}
-	switch k {
-	case 0:
-		c := cs[r.Intn(len(cs))]
-		x := &txSpec{typ: types.TxType_TRANSFER, sender: c, rcpt: b.pickUser(), amount: b.randAmount(c), nonce: b.nextNonce(c), label: "sender-contract-transfer"}
-		return x
-	case 1:
-		c := cs[r.Intn(len(cs))]
-		d := cs[r.Intn(len(cs))]
-		if d == c {
-			return &txSpec{typ: types.TxType_TRANSFER, sender: c, rcpt: b.pickUser(), amount: b.randAmount(c), nonce: b.nextNonce(c), label: "sender-contract-transfer"}
+	k := r.Intn(10)
+	switch {
+	case k < 4 && len(nc) > 0:
+		p := nc[r.Intn(len(nc))]
+		owner := b.pre.names[p.n][0]
+		x := &txSpec{sender: p.c, asName: p.n, signer: owner, signerSet: true, nonce: b.nextNonce(p.c)}
+		switch r.Intn(4) {
+		case 0:
+			x.typ, x.rcpt, x.amount, x.label = types.TxType_TRANSFER, b.pickUser(), b.randAmount(p.c), "name-contract-transfer"
+		case 1:
+			d := cs[r.Intn(len(cs))]
+			if d == p.c {
+				x.typ, x.rcpt, x.amount, x.label = types.TxType_TRANSFER, b.pickUser(), b.randAmount(p.c), "name-contract-transfer"
+				break
+			}
+			x.typ, x.rcpt, x.amount, x.label = types.TxType_CALL, d, b.randAmount(p.c), "name-contract-calls-other"
+			x.sc = b.genScript(x, false, new(big.Int).Add(b.cur.acct(d).bal, x.amount))
+			b.setFee(x, false)
+		default:
+			// the contract account "calls" itself: recipient = its address, or the same name
+			x.typ, x.rcpt, x.amount, x.label = types.TxType_CALL, p.c, b.randAmount(p.c), "name-contract-calls-itself"
+			if r.Chance(1, 3) {
+				x.rcptName = p.n
+			}
+			x.sc = b.genScript(x, false, b.cur.acct(p.c).bal)
+			if len(x.sc.xfers) == 0 && x.sc.err == "ok" {
+				x.sc.xfers = []xfer{{b.pickUser(), new(big.Int).Div(b.cur.acct(p.c).bal, big.NewInt(int64(2+r.Intn(5))))}}
+			}
+			b.setFee(x, false)
 		}
-		x := &txSpec{typ: types.TxType_CALL, sender: c, rcpt: d, amount: b.randAmount(c), nonce: b.nextNonce(c), label: "sender-contract-call-other"}
-		x.sc = b.genScript(x, false, new(big.Int).Add(b.cur.acct(d).bal, x.amount))
-		b.setFee(x, false)
 		return x
-	case 2:
-		c := cs[r.Intn(len(cs))]
-		x := &txSpec{typ: types.TxType_CALL, sender: c, rcpt: c, amount: b.randAmount(c), nonce: b.nextNonce(c), label: "sender-contract-calls-itself", outsideSig: true}
-		x.sc = b.genScript(x, false, b.cur.acct(c).bal)
-		if len(x.sc.xfers) == 0 && x.sc.err == "ok" {
-			x.sc.xfers = []xfer{{b.pickUser(), new(big.Int).Div(b.cur.acct(c).bal, big.NewInt(int64(2+r.Intn(5))))}}
+	case k < 7:
+		// the account "aergo.name"
+		x := &txSpec{sender: iName, asName: -1, nonce: b.nextNonce(iName), amount: new(big.Int), label: "account-aergo.name"}
+		if o, ok := b.pre.names[0]; ok {
+			x.signer, x.signerSet = o[0], true
 		}
-		b.setFee(x, false)
-		return x
-	default:
-		x := &txSpec{typ: types.TxType_GOVERNANCE, sender: iName, rcpt: iName, amount: new(big.Int), nonce: b.nextNonce(iName), label: "sender-aergo.name", outsideSig: true}
-		if r.Chance(1, 2) {
+		switch r.Intn(4) {
+		case 0:
 			a := b.pickUser()
+			x.typ, x.rcpt = types.TxType_GOVERNANCE, iName
 			x.gov = []string{"setowner", strconv.Itoa(a)}
 			x.govJSON = `{"Name":"v1setOwner","Args":["` + types.EncodeAddress(b.s.t.addr[a]) + `"]}`
-		} else {
+		case 1:
+			x.typ, x.rcpt, x.amount = types.TxType_TRANSFER, b.pickUser(), b.randAmount(iName)
+		default:
 			n := 1 + r.Intn(nNames)
+			x.typ, x.rcpt = types.TxType_GOVERNANCE, iName
 			x.gov = []string{"ncreate", strconv.Itoa(n)}
 			x.govJSON = `{"Name":"v1createName","Args":["` + nameStr(n) + `"]}`
 			x.amount = b.around(b.s.cfg.namePrice)
 		}
 		return x
+	case len(cs) > 0:
+		// a contract address as the account: nobody can sign for it
+		c := cs[r.Intn(len(cs))]
+		x := &txSpec{sender: c, signer: -1, signerSet: true, nonce: b.nextNonce(c), amount: b.randAmount(c)}
+		switch r.Intn(3) {
+		case 0:
+			x.typ, x.rcpt, x.label = types.TxType_TRANSFER, b.pickUser(), "unsigned-contract-transfer"
+		case 1:
+			d := cs[r.Intn(len(cs))]
+			x.typ, x.rcpt, x.label = types.TxType_CALL, d, "unsigned-contract-call"
+			x.sc = b.genScript(x, false, new(big.Int).Add(b.cur.acct(d).bal, x.amount))
+			if d == c {
+				x.sc = b.genScript(x, false, b.cur.acct(c).bal)
+			}
+			b.setFee(x, false)
+		default:
+			x.typ, x.rcpt, x.label = types.TxType_CALL, c, "unsigned-contract-calls-itself"
+			x.sc = b.genScript(x, false, b.cur.acct(c).bal)
+			if len(x.sc.xfers) == 0 && x.sc.err == "ok" {
+				x.sc.xfers = []xfer{{b.pickUser(), new(big.Int).Div(b.cur.acct(c).bal, big.NewInt(int64(2+r.Intn(5))))}}
+			}
+			b.setFee(x, false)
+		}
+		return x
 	}
+	return b.genTransferLike()
+}
+
+// useNames: give the account and / or the recipient of a generated transaction by name where a committed
+// name resolves to it (name.Resolve in executeTx; the verifier checks the signature against the name's owner).
+func (b *blockGen) useNames(x *txSpec) *txSpec {
+	r := b.s.rng
+	if x.asName == 0 && !x.signerSet && r.Chance(1, 6) {
+		if ns := b.namesTo(x.sender); len(ns) > 0 {
+			x.asName = ns[r.Intn(len(ns))]
+			x.signer, x.signerSet = b.pre.names[x.asName][0], true
+			b.s.run.Count("account-by-name")
+		}
+	}
+	if x.rcpt >= 0 && x.rcptName == 0 && x.typ != types.TxType_GOVERNANCE && r.Chance(1, 6) {
+		if ns := b.namesTo(x.rcpt); len(ns) > 0 {
+			x.rcptName = ns[r.Intn(len(ns))]
+			b.s.run.Count("recipient-by-name")
+		}
+	}
+	return x
 }
 
 func (b *blockGen) genMulticall() *txSpec {
@@ -1867,7 +2079,9 @@ func (b *blockGen) genRejectAfterCommit() *txSpec {
 	return x
 }
 
-func (b *blockGen) genAny() *txSpec {
+func (b *blockGen) genAny() *txSpec { return b.useNames(b.genAny0()) }
+
+func (b *blockGen) genAny0() *txSpec {
 	if b.s.rng.Chance(1, 40) {
 		return b.genPrefund()
 	}
@@ -1976,7 +2190,35 @@ func randomSession(run *vh.Run, prop string, rng *vh.Rng, n int, fv int32, publi
 		b.submit(&txSpec{typ: types.TxType_GOVERNANCE, sender: u, rcpt: iName, amount: s.cfg.namePrice, nonce: b.nextNonce(u),
 			gov: []string{"ncreate", "1"}, govJSON: `{"Name":"v1createName","Args":["` + nameStr(1) + `"]}`})
 	}, s.pickCoinbase(cbMode), false)
+	// a second scene block: name 1 (committed by now) is pointed at a contract - its owner becomes the
+	// contract's creator, who can from then on send transactions under that name *as the contract account* -
+	// and name 2 is created for a user (account / recipient by name)
+	s.block(func(b *blockGen) {
+		u := iUser0 + 2
+		if cs := b.contracts(); len(cs) > 0 && b.pre.names[1][0] == u {
+			ct := cs[rng.Intn(len(cs))]
+			b.submit(&txSpec{typ: types.TxType_GOVERNANCE, sender: u, rcpt: iName, amount: s.cfg.namePrice, nonce: b.nextNonce(u),
+				gov:     []string{"nupdate", "1", strconv.Itoa(ct)},
+				govJSON: `{"Name":"v1updateName","Args":["` + nameStr(1) + `","` + types.EncodeAddress(s.t.addr[ct]) + `"]}`, label: "scene-name-to-contract"})
+		}
+		v := iUser0 + 3
+		b.submit(&txSpec{typ: types.TxType_GOVERNANCE, sender: v, rcpt: iName, amount: s.cfg.namePrice, nonce: b.nextNonce(v),
+			gov: []string{"ncreate", "2"}, govJSON: `{"Name":"v1createName","Args":["` + nameStr(2) + `"]}`, label: "scene-name-for-user"})
+	}, s.pickCoinbase(cbMode), false)
 	for k := 0; k < blocks && !s.aborted; k++ {
+		if rng.Chance(1, 3) {
+			// a block state that is never committed, with transactions no signature could cover
+			np := 1 + rng.Intn(txs)
+			s.probeBlock(func(b *blockGen) {
+				for i := 0; i < np && !s.aborted; i++ {
+					if rng.Chance(1, 2) {
+						b.submit(b.genOtherSender())
+					} else {
+						b.submit(b.genAny())
+					}
+				}
+			})
+		}
 		// time passes: sometimes exactly up to the staking / voting delay
 		switch rng.Intn(6) {
 		case 0:
